@@ -1,0 +1,91 @@
+//go:build verif
+
+package subscription
+
+// Contracts for the deductive verifier in /verif (comment-only file, build tag verif).
+
+// C19: per operation id, the engine emits data events followed by at most one terminal event, and nothing after it.
+// Events: every Emit on the protocol's event handler is `emitted`; error / completed / non-subscription result are
+// `terminalEmitted` (the protocols turn them into error resp. complete messages, after which the id is dead).
+//@ func EventHandler.Emit
+//@   params recv eventType id data err
+//@   modifies global(ext)
+//@   emits emitted
+//@   emits terminalEmitted when eventType == EventTypeOnError || eventType == EventTypeOnSubscriptionCompleted || eventType == EventTypeOnNonSubscriptionExecutionResult
+//@   trusted interface method (protocol event handler)
+//@ func Executor.Execute
+//@   modifies global(ext)
+//@   trusted interface method (engine execution; data is flushed through the writer's flush callback)
+//@ func Executor.SetContext
+//@   modifies global(ext)
+//@   trusted interface method
+//@ func Executor.OperationType
+//@   pure
+//@   trusted interface method
+//@ func ExecutorPool.Put
+//@   modifies global(ext)
+//@   trusted interface method
+//@ func ExecutorPool.Get
+//@   modifies global(ext)
+//@   trusted interface method
+
+//@ func ExecutorEngine.executeSubscription
+//@   requires e != nil
+//@   at call EventHandler.Emit: assert {events.carry.the.operation.id.and.go.to.the.operations.handler} arg2 == id && arg0 == eventHandler
+//@   ensures {at.most.one.terminal.event.per.execution} count(terminalEmitted) <= old(count(terminalEmitted)) + 1
+//@   modifies *, count(emitted), count(terminalEmitted)
+
+//@ func ExecutorEngine.startSubscription
+//@   requires e != nil
+//@   at call ExecutorEngine.executeSubscription: assert {nothing.is.executed.or.emitted.after.the.terminal.event.of.this.operation} count(terminalEmitted) == old(count(terminalEmitted))
+//@   modifies *, count(emitted), count(terminalEmitted)
+//@   safety no-typeassert
+//@   loop 0:
+//@     invariant count(terminalEmitted) == old(count(terminalEmitted))
+
+//@ func ExecutorEngine.handleNonSubscriptionOperation
+//@   requires e != nil
+//@   at call EventHandler.Emit: assert {events.carry.the.operation.id.and.go.to.the.operations.handler} arg2 == id && arg0 == eventHandler
+//@   ensures {exactly.one.terminal.event} count(terminalEmitted) == old(count(terminalEmitted)) + 1 && count(emitted) == old(count(emitted)) + 1
+//@   modifies *, count(emitted), count(terminalEmitted)
+//@   safety no-typeassert
+
+//@ func ExecutorEngine.checkForDuplicateSubscriberID
+//@   requires e != nil
+//@   assumes {package.level.error.value.is.initialised} ErrSubscriberIDAlreadyExists != nil
+//@   ghost var g_failed bool = false
+//@   at call subscriptionCancellations.AddWithParent: ghost g_failed = result1 != nil
+//@   ensures {a.duplicate.or.failed.registration.is.reported.once.and.returned} g_failed ==> count(emitted) == old(count(emitted)) + 1 && result1 != nil
+//@   ensures {a.fresh.id.is.silent} !g_failed ==> count(emitted) == old(count(emitted)) && result1 == nil
+//@   modifies *, count(emitted), count(terminalEmitted)
+
+//@ func ExecutorEngine.StartOperation
+//@   requires e != nil
+//@   at call ExecutorEngine.startSubscription: assert {no.executor.is.started.for.a.duplicate.id} g_dupChecked && !g_dup
+//@   at call ExecutorEngine.handleNonSubscriptionOperation: assert {no.executor.is.started.for.a.duplicate.id} g_dupChecked && !g_dup
+//@   ghost var g_dupChecked bool = false
+//@   ghost var g_dup bool = false
+//@   at call ExecutorEngine.checkForDuplicateSubscriberID: ghost g_dupChecked = true
+//@   at call ExecutorEngine.checkForDuplicateSubscriberID: ghost g_dup = result1 != nil
+//@   modifies *, count(*)
+
+// interfaces used by the protocol handlers (package websocket)
+//@ func TransportClient.DisconnectWithReason
+//@   modifies global(ext)
+//@   emits disconnected
+//@   trusted interface method (client connection)
+//@ func TransportClient.WriteBytesToClient
+//@   modifies global(ext)
+//@   emits wroteMsg
+//@   trusted interface method (client connection)
+//@ func Engine.StartOperation
+//@   modifies global(ext)
+//@   emits started
+//@   trusted interface method (subscription engine; ExecutorEngine.StartOperation is under contract in package subscription)
+//@ func Engine.StopSubscription
+//@   modifies global(ext)
+//@   emits stopped
+//@   trusted interface method (subscription engine)
+//@ func Engine.TerminateAllSubscriptions
+//@   modifies global(ext)
+//@   trusted interface method (subscription engine)
